@@ -240,6 +240,10 @@ pub trait ElementMut: Element + NodeMut {
     fn set_attribute_node(&self, new_attr: XmlAttr) -> error::Result<Option<XmlAttr>>;
 
     fn remove_attribute_node(&self, old_attr: XmlAttr) -> error::Result<XmlAttr> {
+        if !same_document(self.owner_document(), old_attr.owner_document()) {
+            return Err(error::DomException::WrongDocumentErr)?;
+        }
+
         match self.get_attribute_node(old_attr.name().as_str()) {
             Some(attr) if Rc::ptr_eq(&attr.attribute, &old_attr.attribute) => {
                 self.remove_attribute(old_attr.name().as_str())?;
